@@ -47,6 +47,12 @@ CHECKS = {
         text="Each of the 8 streaming file-to-file transforms is run under seeded gulps, sub-ranges, depths, file splits and arguments; every output file is parsed by the harness' own parser and compared with the whole-array definition (bit-exact, |v-mean|<1, one quantisation level), plus declared depth/nchans and inferred sample count. Fault runs (short read, EIO, ENOSPC) assert raises-or-exact.",
         note="Trusted: harness encoder/parser and numpy definitions; dispersion delays are taken from the library (C09 owns them). Files <= 160 samples, <= 16 channels, kernels on 1 thread.",
     ),
+    "C19": dict(
+        level="exploration", ref="DESIGN.md §3.5, §4 C19",
+        technique="deterministic simulation of the thread schedule: prange bodies of each kernel's own source run on virtual threads (baton-passing real threads, sys.monitoring INSTRUCTION pre-emption, seeded schedule) with an access-set race oracle and a single-thread reference; cross-checked on the compiled kernels under real thread counts",
+        text="For each of the 11 prange kernels, seeded schedules (1-4 virtual threads, static or chunked work split, bytecode-granular baton passes) execute the kernel's Python source; a run fails on any element written by two threads or written by one and read by another inside a parallel region, on any difference from the same source on one thread, or from a numpy definition. A second mode runs the compiled kernels under set_num_threads(1..16) x chunk sizes x repeats on both threading layers and demands bit-identical results.",
+        note="The simulated schedule decides on the kernels' Python source, not on numba's lowering; the compiled cross-check runs real code but its schedule is not controlled (its replay re-runs the cell up to 200 times). <= 4 virtual threads, shapes <= 8x12 in simulation, up to 64x4096 compiled.",
+    ),
     "C20": dict(
         level="fault_enumeration", ref="DESIGN.md §4 C20",
         technique="deterministic simulation with enumerated crash points: golden run snapshots after every write, then one re-execution per write index (crash, torn write, ENOSPC) and per sampled read, plus every truncation length, survivors re-opened with FilReader",
